@@ -48,6 +48,10 @@ pub fn ladder_query(kind: &str, n: usize) -> Option<String> {
         "segments" => format!("${}", rep(".a", n)),
         "bracket-segments" => format!("${}", rep("[0]", n)),
         // the node list is empty (not absent) from the first segment on
+        // a comparison whose operand is a function over a filter that again holds such a
+        // comparison: work must grow with the depth, not double with it
+        "ge-count-filter-nest" => format!("$[?{}1 >= 1{}]", rep("count(@[?", n), rep("]) >= 1", n)),
+        "le-count-filter-nest" => format!("$[?{}1 <= 1{}]", rep("count(@[?", n), rep("]) <= 1", n)),
         "segments-after-empty" => format!("$[?@.zz]{}", rep(".a", n)),
         "bracket-segments-after-empty" => format!("$[0:0]{}", rep("[0]", n)),
         "desc-chain" => format!("${}", rep("..a", n.min(2000))),
@@ -64,8 +68,8 @@ pub fn ladder_query(kind: &str, n: usize) -> Option<String> {
     })
 }
 
-pub const QUERY_LADDERS: [&str; 20] = [
-    "paren", "not-paren", "nested-filter", "fn-nest", "fn-nest-broken", "fn-nest-compare", "segments", "bracket-segments", "desc-chain", "union", "or-chain", "and-chain", "singular-steps", "slice-chain", "blank-run", "long-name", "long-number", "long-exponent", "segments-after-empty", "bracket-segments-after-empty",
+pub const QUERY_LADDERS: [&str; 22] = [
+    "paren", "not-paren", "nested-filter", "fn-nest", "fn-nest-broken", "fn-nest-compare", "segments", "bracket-segments", "desc-chain", "union", "or-chain", "and-chain", "singular-steps", "slice-chain", "blank-run", "long-name", "long-number", "long-exponent", "segments-after-empty", "bracket-segments-after-empty", "ge-count-filter-nest", "le-count-filter-nest",
 ];
 pub const DOC_LADDERS: [&str; 4] = ["doc-depth-built-array", "doc-depth-built-object", "doc-depth-parsed", "doc-width"];
 
@@ -164,6 +168,16 @@ impl Set {
         for s in gen::composition_queries() {
             cases.push(Case::Str(s, "compositions"));
         }
+        for (k, s) in gen::syntax_inside_strings().into_iter().enumerate() {
+            if k % 3 == 0 {
+                cases.push(Case::Str(s, "syntax-inside-strings"));
+            }
+        }
+        for (k, s) in gen::double_fault_strings().into_iter().enumerate() {
+            if k % 3 == 0 {
+                cases.push(Case::Str(s, "double-faults"));
+            }
+        }
         // programmatic queries with extreme integers inside the I-JSON range (and the i64 limits,
         // which are outside the property's quantifier and only explored)
         use oracle::ast::*;
@@ -203,6 +217,11 @@ impl Set {
                 // the flat segment chains are cheap: the quick tier runs them to the top rung
                 let cheap = matches!(k, "segments" | "bracket-segments" | "segments-after-empty" | "bracket-segments-after-empty");
                 if tier == Tier::Quick && (*r > 16384 || *r == 20) && !cheap {
+                    continue;
+                }
+                // these two measure time (work must not double per level); their stack depth is
+                // that of the nested-filter ladder, whose open finding starts at 4096
+                if k.ends_with("count-filter-nest") && *r > 1024 {
                     continue;
                 }
                 cases.push(Case::Ladder(k, *r));
@@ -356,7 +375,19 @@ impl CaseSet for Set {
                 Case::Ladder(kind, rung) => {
                     acc_l.count("ladder_cases", 1);
                     acc_l.nontrivial(format!("{}:{}", kind, rung).as_bytes());
-                    if let Some(q) = ladder_query(kind, *rung) {
+                    if let (true, Some(q)) = (kind.ends_with("count-filter-nest"), ladder_query(kind, *rung)) {
+                        // on a document nested as deep as the query: single-element arrays
+                        let mut d = json!([1]);
+                        for _ in 0..*rung + 1 {
+                            d = Value::Array(vec![d]);
+                        }
+                        match libapi::query_with_path(&q, &d) {
+                            LibOutcome::Ok(ns) if ns.len() == 1 => {}
+                            LibOutcome::Ok(ns) => out_l.push((format!("the {} ladder query at rung {} selects {} nodes instead of 1", kind, rung, ns.len()), self.describe(idx))),
+                            o => out_l.push((format!("the {} ladder at rung {}: {}", kind, rung, o.brief()), self.describe(idx))),
+                        }
+                        forget(d);
+                    } else if let Some(q) = ladder_query(kind, *rung) {
                         self.run_str(&q, idx, false, true, &mut acc_l, &mut out_l);
                     } else {
                         let queries = ["$..*", "$..a", "$..[0]", "$[?@..a]", "$[*]", "$[::-1]", "$[?@ > 1]", "$[?count(@..*) > 1]", "$..[?@.a]"];
